@@ -2,7 +2,8 @@
 
 (a) GLOBAL-STATE FRAME (C19, C20, C10).  Every store into a module-level mutable object of the package (found by scanning the
     current source: `X[...] = ...`, `X.attr = ...`, augmented assignments, and mutating method calls .add/.append/.update/.pop/
-    .extend/.clear/.setdefault/.remove/.insert/.discard, plus next() on an object reachable from a module global) is located
+    .extend/.clear/.setdefault/.remove/.insert/.discard, plus next() on an object reachable from a module global; and the same stores
+    through a name captured from an ENCLOSING function - per-closure state shared by all calls of a returned function) is located
     either at module top level or inside one of the REGISTRATION functions (def*/register*), or is one of the audited exceptions
     listed in AUDITED.  No `global` / `nonlocal` statement exists outside the audited list.  Consequence: differentiation-time code
     (everything else) cannot change process-wide state, so a call's result cannot depend on earlier calls (C19) and threads share
@@ -42,7 +43,8 @@ AUDITED = {
 }
 FILES = ["autograd/core.py", "autograd/tracer.py", "autograd/util.py", "autograd/wrap_util.py", "autograd/builtins.py", "autograd/differential_operators.py",
          "autograd/extend.py", "autograd/numpy/numpy_vjps.py", "autograd/numpy/numpy_jvps.py", "autograd/numpy/numpy_wrapper.py", "autograd/numpy/numpy_boxes.py",
-         "autograd/numpy/numpy_vspaces.py", "autograd/numpy/linalg.py", "autograd/numpy/fft.py", "autograd/numpy/random.py", "autograd/misc/flatten.py"]
+         "autograd/numpy/numpy_vspaces.py", "autograd/numpy/linalg.py", "autograd/numpy/fft.py", "autograd/numpy/random.py", "autograd/misc/flatten.py",
+         "autograd/misc/fixed_points.py"]
 
 
 class Scope(ast.NodeVisitor):
@@ -62,6 +64,9 @@ class Scope(ast.NodeVisitor):
             if isinstance(n, (ast.ClassDef,)):
                 self.module_globals.add(n.name)
         self.locals_stack = []
+        # names bound by `<name> = vspace(...)`: VSpace objects, whose .add is the (pure) vector addition, not set.add
+        self.vspace_names = {t.id for n in ast.walk(tree) if isinstance(n, ast.Assign) and isinstance(n.value, ast.Call) and isinstance(n.value.func, ast.Name)
+                             and n.value.func.id == "vspace" for t in n.targets if isinstance(t, ast.Name)}
 
     def q(self):
         return ".".join(self.stack) if self.stack else "<module>"
@@ -99,6 +104,19 @@ class Scope(ast.NodeVisitor):
     def is_local(self, name):
         return any(name in l for l in self.locals_stack)
 
+    def is_captured(self, name):
+        """name is bound in an ENCLOSING function scope but not in the innermost one: a closure cell shared by every call of the inner
+        function (and by every thread that calls it)"""
+        if len(self.locals_stack) < 2 or name in self.locals_stack[-1]:
+            return False
+        return any(name in l for l in self.locals_stack[:-1])
+
+    def _closure_store(self, t, node):
+        if isinstance(t, (ast.Subscript, ast.Attribute)):
+            r = self.root(t)
+            if r is not None and r not in ("self", "cls") and self.is_captured(r):
+                self.site("closure-state", node)
+
     def root(self, e):
         while isinstance(e, (ast.Attribute, ast.Subscript)):
             e = e.value
@@ -126,6 +144,15 @@ class Scope(ast.NodeVisitor):
     def visit_Assign(self, node):
         for t in node.targets:
             self._store_target(t, node)
+            self._closure_store(t, node)
+            if isinstance(t, (ast.Tuple, ast.List)):
+                for e in t.elts:
+                    self._closure_store(e, node)
+        self.generic_visit(node)
+
+    def visit_Delete(self, node):
+        for t in node.targets:
+            self._closure_store(t, node)
         self.generic_visit(node)
 
     def visit_AugAssign(self, node):
@@ -138,6 +165,7 @@ class Scope(ast.NodeVisitor):
                 self.site("attr", node)
         elif isinstance(t, ast.Name) and self.stack and self.q() in ("VSpace._mut_add",):
             self.site("aug", node)
+        self._closure_store(t, node)
         self.generic_visit(node)
 
     def visit_Call(self, node):
@@ -146,6 +174,10 @@ class Scope(ast.NodeVisitor):
             r = self.root(f.value)
             if r is not None and not self.is_local(r) and (r in self.module_globals or r in KNOWN_STATE):
                 self.site("mutator-global", node)
+        if isinstance(f, ast.Attribute) and f.attr in MUTATORS and self.stack:
+            r = self.root(f.value)
+            if r is not None and r not in ("self", "cls") and self.is_captured(r) and not (f.attr == "add" and r in self.vspace_names):
+                self.site("closure-state", node)      # e.g. cache.append(...) / memo.update(...) on a cell of the enclosing function
         if isinstance(f, ast.Attribute) and f.attr in FOREIGN_MUTATORS and self.stack:
             self.site("foreign-global-state", node)   # process-wide state of NumPy / warnings / random / sys changed from inside a function
         if isinstance(f, ast.Name) and f.id in ("getrefcount", "id") and self.stack and f.id == "getrefcount":
@@ -198,6 +230,10 @@ def run_frame(rep, tier):
             elif kind == "foreign-global-state":
                 ok = False
                 why = "changes process-wide state of another library (error/warning/random state) without a restoring context manager: later calls see a different interpreter"
+            elif kind == "closure-state":
+                ok = (rel, q, "closure-state") in AUDITED or q.split(".")[0].startswith("deprecated")   # registration-time shims of the pre-1.2 API
+                why = ("an inner function mutates an object held in a closure cell of its enclosing function: state shared by every call (and every thread) of the "
+                       "returned function - results can depend on earlier or concurrent calls")
             elif kind in ("global-stmt", "nonlocal-stmt"):
                 ok = False
                 why = "global/nonlocal statement (hidden mutable state)"
